@@ -1146,7 +1146,119 @@ fn generate(seed: u64, n_cases: usize, tier: &str) {
             out.line(gen_op(&mut rng, f));
         }
     }
+    // input-domain family (`d<id>`, own random stream; the cases above stay as they are): items over the whole
+    // i64 domain (negative, i64::MIN / MAX: derived Ord / Eq / serde / contains on them; `map` / `mut` shifts that
+    // leave i64 are `bad-op` on both sides), lists of 5-12 items, and `eng` ops with 4-6 requests per list
+    let mut drng = Rng::new(seed ^ 0xD0_3A_11_5E_ED);
+    for _ in 0..n_cases / 8 {
+        id += 1;
+        out.case(format!("d{id}"));
+        let len = drng.range(2, max_len);
+        let fam = drng.below(3);
+        let mut engs = 0;
+        for _ in 0..len {
+            let mut f = if drng.chance(75) { fam } else { drng.below(3) };
+            if f == 2 {
+                engs += 1;
+                if engs > 3 {
+                    f = drng.below(2);
+                }
+            }
+            out.line(domain_op(&mut drng, f));
+        }
+    }
     out.flush();
+}
+
+const D_ITEMS: &[i64] = &[i64::MIN, i64::MIN + 1, -2, -1, 0, 1, 3, i64::MAX - 1, i64::MAX];
+
+fn d_list(rng: &mut Rng) -> Vec<i64> {
+    let len = match rng.below(100) {
+        0..=14 => 0,
+        15..=34 => 1,
+        35..=59 => 2,
+        60..=79 => 3,
+        _ => rng.range(5, 12) as u64,
+    };
+    (0..len).map(|_| *rng.pick(D_ITEMS)).collect()
+}
+
+fn d_raw(rng: &mut Rng, allow_none: bool) -> String {
+    match rng.below(if allow_none { 3 } else { 2 }) {
+        2 => "none".into(),
+        0 => format!("one {}", rng.pick(D_ITEMS)),
+        _ => format!("many {}", toks(&d_list(rng))).trim_end().to_string(),
+    }
+}
+
+fn d_reqs(rng: &mut Rng, next: &mut u64, dead_pct: u64) -> String {
+    let len = match rng.below(100) {
+        0..=19 => 0,
+        20..=39 => 1,
+        40..=59 => 2,
+        _ => 4 + rng.below(3),
+    };
+    (0..len)
+        .map(|_| {
+            *next += 1;
+            let ex = if rng.chance(dead_pct) { 1 + rng.below(2) } else { 0 };
+            let cid = if rng.chance(15) { 5000 + *next } else { *next };
+            format!("{ex}:{cid}")
+        })
+        .collect::<Vec<_>>()
+        .join(" ")
+}
+
+fn domain_op(rng: &mut Rng, family: u64) -> String {
+    let l = |s: String| s.trim_end().to_string();
+    let k = |rng: &mut Rng| *rng.pick(&[-1i64, 1, 2, 0]);
+    match family {
+        0 => match rng.below(100) {
+            0..=11 => l(format!("n.raw {}", d_raw(rng, true))),
+            12..=21 => l(format!("n.vec {}", toks(&d_list(rng)))),
+            22..=29 => l(format!("n.iter {}", toks(&d_list(rng)))),
+            30..=33 => format!("n.opt {}", rng.pick(D_ITEMS)),
+            34..=57 => l(format!("n.ext {}", toks(&d_list(rng)))),
+            58..=65 => l(format!("n.extn {}", d_raw(rng, true))),
+            66..=71 => format!("n.map {}", k(rng)),
+            72..=77 => format!("n.mut {}", k(rng)),
+            78..=87 => format!("n.has {}", rng.pick(D_ITEMS)),
+            _ => l(format!("n.cmp {}", d_raw(rng, true))),
+        },
+        1 => match rng.below(100) {
+            0..=11 => l(format!("o.raw {}", d_raw(rng, false))),
+            12..=17 => format!("o.item {}", rng.pick(D_ITEMS)),
+            18..=25 => l(format!("o.vec {}", toks(&d_list(rng)))),
+            26..=33 => l(format!("o.iter {}", toks(&d_list(rng)))),
+            34..=57 => l(format!("o.ext {}", toks(&d_list(rng)))),
+            58..=65 => l(format!("o.exto {}", d_raw(rng, false))),
+            66..=70 => format!("o.map {}", k(rng)),
+            71..=75 => format!("o.mut {}", k(rng)),
+            76..=79 => "o.fromn".into(),
+            80..=89 => format!("o.has {}", rng.pick(D_ITEMS)),
+            _ => l(format!("o.cmp {}", d_raw(rng, false))),
+        },
+        _ => {
+            let mut next = 0u64;
+            let pct = *rng.pick(&[0u64, 40, 80]);
+            let onoff = if rng.chance(70) { "on" } else { "off" };
+            let ev = *rng.pick(&["shutdown", "cmdc", "cmdo", "cmdk", "cmdx", "cmdx", "ts_on", "ts_off", "mkt", "mktre", "accre"]);
+            let g0 = match ev {
+                "cmdc" | "cmdo" => d_reqs(rng, &mut next, pct),
+                "cmdk" => {
+                    let mut v: Vec<String> =
+                        d_reqs(rng, &mut next, pct).split(' ').filter(|t| !t.is_empty()).map(String::from).collect();
+                    v.sort_by_key(|t| t.split_once(':').unwrap().0.parse::<u64>().unwrap());
+                    v.join(" ")
+                }
+                "cmdx" => format!("{} / {}", d_reqs(rng, &mut next, pct), d_reqs(rng, &mut next, pct)),
+                _ => String::new(),
+            };
+            let g1 = d_reqs(rng, &mut next, pct);
+            let g2 = d_reqs(rng, &mut next, pct);
+            format!("eng {onoff} {ev} {g0} / {g1} / {g2}").replace("  ", " ").trim_end().to_string()
+        }
+    }
 }
 
 fn main() {
